@@ -28,6 +28,12 @@ class PyRaise(Exception):
         self.msg = msg
 
 
+def engine_errors():
+    """Everything a symbolic run of code outside the supported subset can end in: each is reported as *undecided*, never a pass."""
+    import z3
+    return (Unsupported, PyRaise, AttributeError, TypeError, KeyError, IndexError, ValueError, NameError, AssertionError, z3.Z3Exception)
+
+
 class Ref:
     """Reference to a heap cell (numpy array, list, dict, object)."""
     __slots__ = ("oid", "kind")
